@@ -132,6 +132,12 @@ def main(run):
     n0 = len(texts)
     texts = texts + [(k + "@empty", t) for i, (k, t) in enumerate(texts) if i % 3 == 0 or k == "fixed"]
     cases = [{"id": i, "base": "" if k.endswith("@empty") else BASE, "text": t} for i, (k, t) in enumerate(texts)]
+    # the text that is ALREADY the last fully built one, after an incremental build changed the set in between: a successful
+    # full build must replace everything again (state before = BASE merged with MID)
+    MID = rule_text("b", 7, "dm", "return 2") + "\n" + rule_text("z", 1, "dm")
+    texts.append(("resubmitted", BASE))
+    cases.append({"id": len(cases), "base": BASE, "mid": MID, "text": BASE})
+    mid_rules = {"b": (7, "dm"), "z": (1, "dm")}
     run.log("submitting %d texts to the five entry points" % len(cases))
     shards = [cases[i::NCPU] for i in range(NCPU)]
 
@@ -149,7 +155,7 @@ def main(run):
     base_rules_full = {n: (s, d) for n, s, d in BASE_RULES}
     stream_stats, nontrivial = {}, set()
     for (kind, text), o in zip(texts, obs):
-        base_rules = {} if kind.endswith("@empty") else base_rules_full
+        base_rules = {} if kind.endswith("@empty") else (dict(base_rules_full, **mid_rules) if kind == "resubmitted" else base_rules_full)
         kind = kind.replace("@empty", "")
         st = stream_stats.setdefault(kind + ("" if base_rules else " (from the empty state)"), {"texts": 0, "accepted": 0})
         st["texts"] += 1
@@ -179,6 +185,8 @@ def main(run):
             for n in ("pool-construction", "pool-full-update"):
                 if acc.get(n) and parse_rules(es[n]["after"]) != parsed:
                     problems.append((o["id"], "replace-differs", n))
+            if kind == "resubmitted" and parsed != base_rules_full:
+                problems.append((o["id"], "replace-differs", "builder-full"))
             merged = dict(base_rules)
             merged.update(parsed)
             for n in ("builder-incremental", "pool-incremental-update"):
